@@ -387,3 +387,132 @@ Section Trail.
       + exists s. split; [exact Hs|right]. rewrite <- E. symmetry. apply rev_involutive.
   Qed.
 End Trail.
+
+(* ---------------------------------------------------------------- rotation keeps the edges *)
+Lemma skipn_cons_nth : forall s (r : line), s < length r ->
+  skipn s r = nth s r origin :: skipn (S s) r.
+Proof.
+  induction s as [|s IH]; intros r H; destruct r as [|a r]; simpl in H; try lia; [reflexivity|].
+  simpl. apply IH. lia.
+Qed.
+
+Lemma ringE_rot : forall s (r : line), s < length r ->
+  Permutation (line_edges (close_ring (rot s r))) (ringE r).
+Proof.
+  intros s r Hs. unfold ringE. destruct s as [|s].
+  - unfold rot. simpl. rewrite app_nil_r. reflexivity.
+  - set (X := firstn (S s) r ++ [nth (S s) r origin]).
+    set (Y := skipn (S s) r ++ [hd origin r]).
+    assert (Hf : firstn (S s) r = hd origin r :: tl (firstn (S s) r)).
+    { destruct r as [|a r]; [simpl in Hs; lia|reflexivity]. }
+    assert (Hsk := skipn_cons_nth (S s) r Hs).
+    assert (E1 : close_ring r = X ++ tl Y).
+    { unfold close_ring, X, Y. rewrite Hsk. simpl tl.
+      rewrite <- (firstn_skipn (S s) r) at 1. rewrite Hsk, <- !app_assoc. reflexivity. }
+    assert (E2 : close_ring (rot (S s) r) = Y ++ tl X).
+    { unfold close_ring. rewrite hd_rot by exact Hs. unfold rot, X, Y.
+      rewrite Hf at 2. simpl tl. rewrite Hf at 1. rewrite <- !app_assoc. reflexivity. }
+    rewrite E1, E2.
+    assert (HX : X <> []) by (unfold X; intro E; apply app_eq_nil in E; destruct E; discriminate).
+    assert (HY : Y <> []) by (unfold Y; intro E; apply app_eq_nil in E; destruct E; discriminate).
+    rewrite !line_edges_glue; try assumption.
+    + apply Permutation_app_comm.
+    + unfold X, Y, llast, lfirst. rewrite last_last. rewrite Hsk. reflexivity.
+    + unfold X, Y, llast, lfirst. rewrite last_last. rewrite Hf. reflexivity.
+Qed.
+
+Lemma uedges_rev : forall L,
+  Permutation (map uedge (line_edges (rev L))) (map uedge (line_edges L)).
+Proof.
+  intros L. rewrite line_edges_rev, map_rev, map_map. rewrite <- Permutation_rev.
+  erewrite map_ext; [reflexivity|]. intros e. apply uedge_swap.
+Qed.
+
+Definition is_ring_line (r L : line) : Prop :=
+  exists s, s < length r /\ (L = close_ring (rot s r) \/ L = rev (close_ring (rot s r))).
+
+Lemma is_ring_line_uedges : forall r L, is_ring_line r L ->
+  Permutation (map uedge (line_edges L)) (map uedge (ringE r)).
+Proof.
+  intros r L (s & Hs & [->| ->]).
+  - apply Permutation_map. apply ringE_rot. exact Hs.
+  - rewrite uedges_rev. apply Permutation_map. apply ringE_rot. exact Hs.
+Qed.
+
+Lemma last_pnth : forall (L : line), llast L = pnth (pred (length L)) L.
+Proof.
+  induction L as [|a L IH]; [reflexivity|]. destruct L as [|b L']; [reflexivity|].
+  change (llast (a :: b :: L')) with (llast (b :: L')). rewrite IH. reflexivity.
+Qed.
+
+Lemma perm_concat : forall {A} (l l' : list (list A)), Permutation l l' ->
+  Permutation (concat l) (concat l').
+Proof.
+  intros A l l' H. induction H; simpl.
+  - reflexivity.
+  - apply Permutation_app_head. assumption.
+  - rewrite !app_assoc. apply Permutation_app_tail. apply Permutation_app_comm.
+  - etransitivity; eassumption.
+Qed.
+
+(* ---------------------------------------------------------------- all closed trails together *)
+Theorem trails_are_rings : forall (Ls : list line) (R : list line),
+  NoDup (concat R) -> Forall (fun r => 3 <= length r) R ->
+  Forall (fun L => 2 <= length L /\ lfirst L = llast L) Ls ->
+  Permutation (map uedge (flat_map line_edges Ls)) (map uedge (flat_map ringE R)) ->
+  exists R', Permutation R' R /\ Forall2 is_ring_line R' Ls.
+Proof.
+  induction Ls as [|L Ls IH]; intros R Hnd Hlen HL HP.
+  - simpl in HP. apply Permutation_nil in HP.
+    destruct R as [|r R]; [exists []; split; constructor|exfalso].
+    inversion Hlen as [|x y Hr _]; subst. simpl in HP. rewrite map_app in HP.
+    apply app_eq_nil in HP. destruct HP as [HP _]. apply map_eq_nil in HP.
+    assert (Hl : length (ringE r) = length r).
+    { unfold ringE. rewrite line_edges_length, close_ring_length. reflexivity. }
+    rewrite HP in Hl. simpl in Hl. lia.
+  - inversion HL as [|x y [HL2 HLc] HL']; subst.
+    simpl in HP. rewrite map_app in HP.
+    pose proof (ring_uedges_nodup R Hnd Hlen) as HndE.
+    assert (HndL : NoDup (map uedge (line_edges L) ++ map uedge (flat_map line_edges Ls))).
+    { eapply Permutation_NoDup; [symmetry; exact HP|exact HndE]. }
+    set (m := pred (length L)).
+    assert (Hlm : length L = S m) by (unfold m; lia).
+    assert (Hm : 1 <= m) by (unfold m; lia).
+    assert (Hadj : forall e, In e (line_edges L) -> In (uedge e) (map uedge (flat_map ringE R))).
+    { intros e He. eapply Permutation_in; [exact HP|]. apply in_or_app. left. apply in_map. exact He. }
+    (* the ring of the first vertex *)
+    assert (He0 : In (pnth 0 L, pnth 1 L) (line_edges L)).
+    { rewrite <- (line_edges_nth L 0) by lia. apply nth_In. rewrite line_edges_length. lia. }
+    pose proof (Hadj _ He0) as H0. apply in_map_iff in H0. destruct H0 as ([a b] & Eab & Hab).
+    apply in_flat_map in Hab. destruct Hab as (r & Hr & Hab). apply ringE_step in Hab.
+    assert (Hstart : In (pnth 0 L) r).
+    { destruct (uedge_eq_cases _ _ Eab) as [E|E]; [|unfold swap in E; simpl in E]; inversion E; subst.
+      - eapply step_in_l. exact Hab.
+      - eapply step_in_r. exact Hab. }
+    assert (Hclosed : pnth 0 L = pnth m L).
+    { unfold m. rewrite <- last_pnth. rewrite <- HLc. unfold lfirst, pnth. destruct L; reflexivity. }
+    pose proof (closed_trail_is_ring R Hnd Hlen r Hr L m Hlm Hm Hclosed
+                  (NoDup_app_l _ _ HndL) Hadj Hstart) as Hring.
+    (* remove the ring and its edges *)
+    destruct (in_split _ _ Hr) as (R1 & R2 & ER).
+    assert (HPR : Permutation R (r :: R1 ++ R2)) by (rewrite ER; symmetry; apply Permutation_middle).
+    assert (HPE : Permutation (map uedge (flat_map ringE R))
+                              (map uedge (ringE r) ++ map uedge (flat_map ringE (R1 ++ R2)))).
+    { rewrite <- map_app. apply Permutation_map.
+      change (ringE r ++ flat_map ringE (R1 ++ R2)) with (flat_map ringE (r :: R1 ++ R2)).
+      apply Permutation_flat_map. exact HPR. }
+    assert (HP' : Permutation (map uedge (flat_map line_edges Ls)) (map uedge (flat_map ringE (R1 ++ R2)))).
+    { apply (Permutation_app_inv_l (map uedge (ringE r))).
+      rewrite <- HPE, <- HP. apply Permutation_app_tail. symmetry. apply is_ring_line_uedges. exact Hring. }
+    assert (Hnd' : NoDup (concat (R1 ++ R2))).
+    { assert (Hc : Permutation (concat R) (r ++ concat (R1 ++ R2))).
+      { change (r ++ concat (R1 ++ R2)) with (concat (r :: R1 ++ R2)). apply perm_concat. exact HPR. }
+      eapply NoDup_app_r. eapply Permutation_NoDup; [exact Hc|exact Hnd]. }
+    assert (Hlen' : Forall (fun r => 3 <= length r) (R1 ++ R2)).
+    { assert (Hf : Forall (fun r => 3 <= length r) (r :: R1 ++ R2)) by (eapply Permutation_Forall; [exact HPR|exact Hlen]).
+      inversion Hf; assumption. }
+    destruct (IH (R1 ++ R2) Hnd' Hlen' HL' HP') as (R' & HR' & HF).
+    exists (r :: R'). split.
+    + rewrite HPR. apply perm_skip. exact HR'.
+    + constructor; assumption.
+Qed.
